@@ -11,7 +11,10 @@ PackedPointRecord clouds, views of views) and copies (masks, index lists), writt
 them, judged after every step against the harness's own buffers-and-index-maps picture; (c) READING sessions (reading_session;
 Model/ReadBack.v on the cursor of Model/Cursor.v, `crun` of the main driver): chunk iterators created at any time, several at once, stepped,
 drained and drained again around seeks and read_points on one open reader; (d) header scalings edited by every order of magnitude after
-the records were made (near_rescale_cases); more than 64 MiB in one call (thorough tier)."""
+the records were made (near_rescale_cases); more than 64 MiB in one call (thorough tier).
+Round 7: INDEPENDENT clouds (independent_session; DCreate of Model/DataAlias.v, token N of `dworld`): several clouds made in one process by
+laspy.create() / LasHeader() with the defaults / laspy.read, one edited at a time through every spelling of an edit of an array-valued header
+field (element setters included), every other one compared with its snapshot and round-tripped; each session in a forked process of its own."""
 import io
 import os
 import shutil
@@ -190,6 +193,7 @@ def correspond(ctx):
                          "counts {0,1,2,7,64} incl. one-point clouds obtained by indexing, record bytes uniform random / all ones / small / extremes "
                          "(NaN and inf patterns in float fields), +-VLRs, +-EVLRs, destinations BytesIO / binary file stream / path. "
                          "non-trivial = at least one point; distinct by the produced bytes")
+    independents(ctx)      # first: every session runs in a process forked from this one as it is BEFORE the other generators used laspy
     cs = cases(ctx)
     cmds, idx = [], []
     for i, c in enumerate(cs):
@@ -332,6 +336,22 @@ def correspond(ctx):
         got = ["s=" if (t.startswith("s") and t[1:].split(":")[0] == t[1:].split(":")[-1]) else t for t in line.split(" ")] if line else []
         if got[:len(r["obs"])] != r["obs"]:
             dis.append({"kind": "reading session: outcomes", "input": dict(c["desc"], ops=r["ops"]), "model": " ".join(got)[:160], "impl": " ".join(r["obs"])[:160]})
+    # ---- round 7: independent clouds vs the worlds of Model/DataAlias.v
+    ctx.extra["rule"] += (" || INDEPENDENT clouds (2..5 per session, 2..9 steps): made by laspy.create() / create(point_format=, file_version=) / LasData(LasHeader()) / "
+                          "LasHeader(version=, point_format=) / two laspy.read of the same bytes / a deep copy of a live header, before and after the others were edited; "
+                          "filled through .points, X/Y/Z, x/y/z; ONE cloud edited per step through the element setters (x_offset, x_scale, x_max, x_min), h.offsets[i] = v, "
+                          "h.offsets[:] = v, h.offsets += v, whole-array setters, change_scaling, maxs / mins / number_of_points_by_return, scalar fields, VLRs, extra "
+                          "dimensions, record edits, update_header, write; structural probe of every new cloud against every live one; after every step every other "
+                          "cloud is compared with its snapshot and every cloud is written, read back and judged against what was done to it alone")
+    ins = [h for h in independents(ctx) if h.get("cmd")]
+    for h, line in zip(ins, common.run_model([h["cmd"] for h in ins], name="c04")):
+        ctx.traces += 1
+        got = [] if line == "-" else line.split(" ")
+        want = [("ok:" + common.hexb(raw)) if raw is not None else "err" for _, raw in h["written"]]
+        if len(got) != len(want) or any(g != w and not (w == "err" and g.startswith("err")) for g, w in zip(got, want)):
+            which = [nm for (nm, _), g, w in zip(h["written"], got, want) if g != w]
+            dis.append({"kind": "independent clouds: file written at the end of the session", "input": h["desc"], "model": line[:100],
+                        "impl": f"clouds whose file differs from the model's: {which or 'count'}"})
     return dis
 
 
@@ -342,6 +362,7 @@ def search(ctx, seeds):
         if kind not in seen:
             seen.add(kind)
             failing.append({"kind": kind, "input": inp, "observed": why})
+    independents(ctx)
     for c in cases(ctx):
         d = c["desc"]
         las = c["las"]
@@ -478,6 +499,15 @@ def search(ctx, seeds):
         ctx.count("size:round-trip:" + ("2^20+k" if d["points"] > (1 << 20) else "multiple-of-65536"))
         for kind, why in probs[:2]:
             add("large record: " + kind, d, why)
+    for ins in sorted(independents(ctx), key=lambda r: (bool(r.get("polluted")), bool(r["desc"]["ops"]) and "PROBE-DIRECTED" in r["desc"]["ops"][-1])):      # self-contained sessions first, of those the ones ended by an ordinary edit
+        ctx.case(repr(ins["desc"]), nontrivial=ins["edits"] > 0 and ins["live"] > 1)
+        ctx.count("independent:steps", ins["steps"])
+        for rt in ins["routes"]:
+            ctx.count("independent:route:" + rt)
+        for pr in ins["probe"]:
+            ctx.count("independent:probe-shared:" + pr.split(" (")[-1].rstrip(")") + ":" + pr.split(" is ")[0].split(".")[-1].split("[")[0])
+        for kind, why, at in ins["failures"][:4]:
+            add(kind, dict(ins["desc"], ops=ins["desc"]["ops"][:at]), why)
     for las, budget, size, raised, same in failing_write_cases(ctx):
         ctx.case(("failing-write", budget, size), nontrivial=True)
         ctx.count("failing-write")
@@ -1708,3 +1738,415 @@ def near_rescale_cases(ctx):
             probs.append(("write after read is not idempotent", f"rewrite raised {type(ex).__name__}: {ex}"))
         out.append((d, probs))
     return out
+
+
+# =====================================================================================================================
+# round 7: clouds made INDEPENDENTLY of one another in one process - laspy.create() / LasHeader() with and without arguments (the
+# defaults!), LasData(header), two reads of the same bytes, a deep copy of a live header - at any time of the session (before and
+# after the others were edited), filled through the record, the integer or the scaled dimensions, then edited ONE at a time through
+# every spelling of an edit of an array-valued header field (element setters x_offset / x_scale / x_max / x_min, h.offsets[i] = v,
+# h.offsets[:] = v, h.offsets += v, whole-array setters, change_scaling, maxs / mins / number_of_points_by_return) and the scalar ones.
+# Nothing mutable may be reachable from two of them (structural probe at every creation against EVERY live cloud; what it finds is
+# perturbed in place through the newer one); after every operation every OTHER cloud is compared with its snapshot (contents and
+# identities) and every cloud is written, read back and judged against what was done to that cloud alone.
+# Model: the worlds of Model/DataAlias.v (`dworld`; an independent cloud is the operation DCreate, token N), on which
+# C01_created_object_is_as_given, C01_created_cloud_keeps_its_file, C01_write_unaffected_by_other_objects are stated.
+# =====================================================================================================================
+CLOUD_ROUTES = ["laspy.create()", "laspy.create(point_format=f, file_version=v)", "laspy.create(point_format=f)", "laspy.create(file_version=v)",
+                "LasData(LasHeader())", "LasData(LasHeader(version=v, point_format=f))", "LasData(LasHeader(point_format=PointFormat(f)))",
+                "h = LasHeader(version=v, point_format=f); LasData(h, points=ScaleAwarePointRecord.zeros(n, header=h))",
+                "laspy.read(<bytes>)", "laspy.read(<the same bytes again>)", "LasData(copy.deepcopy(other.header))"]
+_FRESH = {}
+
+
+class _FillRefused(Exception):
+    pass
+
+
+_SNAP_PARTS = ["records", "record format", "record scales", "record offsets", "header fields", "VLRs", "EVLRs"]
+
+
+def _snap_diff(old, new, las, old_assoc):
+    parts = [nm for nm, a, b in zip(_SNAP_PARTS, old[0], new[0]) if a != b]
+    if "header fields" in parts:
+        cur = lasio.header_assoc(las.header)
+        parts[parts.index("header fields")] = "header fields " + ", ".join(k for k in cur if cur[k] != old_assoc.get(k))
+    if old[1:] != new[1:]:
+        parts.append("identity of the record / array / header / format / VLR objects")
+    return "; ".join(parts) or "?"
+
+
+def independent_session(rng, thorough=False):
+    import laspy
+    log = []
+    res = {"failures": [], "probe": [], "steps": 0, "edits": 0, "routes": [], "reader_twice": False, "derivations": []}
+    live, names, mirror, toks = [], [], {}, []
+    pool = {}
+
+    def state_of(las):
+        h = las.header
+        evl = [lasio.vlr_tuple(v) for v in h.evlrs] if (h.version.minor >= 4 and h.evlrs is not None) else []
+        return {"assoc": lasio.header_assoc(h), "vlrs": [lasio.vlr_tuple(v) for v in h.vlrs], "evlrs": evl,
+                "fmt": sessions.format_value(las.points.point_format), "recs": lasio.rec_bytes(las.points)}
+
+    def sync(name, las):
+        cur, old = state_of(las), mirror[name]
+        sets = {k: v for k, v in cur["assoc"].items() if k not in ("point_format_id", "point_size") and old["assoc"].get(k) != v}
+        tok = "D{}!{}!{}!{}!{}!{}".format(names.index(name), lasio.assoc_tok(sets),
+                                          "~" if cur["vlrs"] == old["vlrs"] else lasio.vlrs_tok(cur["vlrs"]),
+                                          "~" if cur["evlrs"] == old["evlrs"] else lasio.vlrs_tok(cur["evlrs"]),
+                                          "~" if cur["fmt"] == old["fmt"] else sessions.fmt_tok(cur["fmt"]),
+                                          "~" if cur["recs"] == old["recs"] else common.hexb(cur["recs"]))
+        mirror[name] = cur
+        return [] if tok.endswith("!-!~!~!~!~") else [tok]
+
+    def remember(o):
+        o["exp"] = _observe(o["las"])
+        if _pending_rescale(o["las"]):
+            o["exp"]["pending"] = True
+        o["snap"] = _snap(o["las"])
+        o["assoc"] = lasio.header_assoc(o["las"].header)
+
+    def check_others(actor, what):
+        for p in live:
+            if p is actor:
+                continue
+            s = _snap(p["las"])
+            if s != p["snap"]:
+                res["failures"].append(("independent clouds: an operation on one cloud changed another cloud",
+                                        f"{what} changed {p['name']} ({p['route']}): {_snap_diff(p['snap'], s, p['las'], p['assoc'])}", len(log)))
+                # and what that does to the round trip of the cloud that was not touched
+                for kind, why in _judge(p["las"], p["exp"], False):
+                    res["failures"].append(("independent clouds: " + kind, f"{p['name']} ({p['route']}), after {what}: {why}", len(log)))
+                return True
+        return False
+
+    def small_coords(rec, n):
+        for k in "XYZ":
+            rec.array[k] = np.array([rng.randrange(-100000, 100000) for _ in range(n)], dtype=np.int32)
+
+    def create():
+        try:
+            create_()
+        except Exception as ex:
+            if not isinstance(ex, _FillRefused):
+                res["failures"].append(("independent clouds: making a cloud raised " + type(ex).__name__, f"{type(ex).__name__}: {ex}", len(log)))
+
+    def create_():
+        v, f = rng.choice(lasio.ALL_PAIRS)
+        route = rng.choice(CLOUD_ROUTES)
+        name = f"c{len(names)}"
+        parent = None
+        n = rng.choice([0, 1, 2, 5])
+        if route == "laspy.create()":
+            las = laspy.create()
+        elif route == "laspy.create(point_format=f, file_version=v)":
+            las = laspy.create(point_format=f, file_version=v)
+        elif route == "laspy.create(point_format=f)":
+            las = laspy.create(point_format=f)
+        elif route == "laspy.create(file_version=v)":
+            las = laspy.create(file_version=v)
+        elif route == "LasData(LasHeader())":
+            las = laspy.LasData(laspy.LasHeader())
+        elif route == "LasData(LasHeader(version=v, point_format=f))":
+            las = laspy.LasData(laspy.LasHeader(version=v, point_format=f))
+        elif route == "LasData(LasHeader(point_format=PointFormat(f)))":
+            las = laspy.LasData(laspy.LasHeader(point_format=laspy.PointFormat(f)))
+        elif route.startswith("h = LasHeader"):
+            h = laspy.LasHeader(version=v, point_format=f)
+            las = laspy.LasData(h, points=laspy.ScaleAwarePointRecord.zeros(n, header=h))
+        elif route.startswith("laspy.read"):
+            if "raw" not in pool or (route == "laspy.read(<bytes>)" and rng.random() < 0.5):
+                h = lasio.rand_header(rng, version=v, fmt=f, nvlrs=rng.choice([0, 1]))
+                rec = lasio.rand_points(rng, h, n)
+                if n:
+                    small_coords(rec, n)
+                pool["raw"] = lasio.write_las(h, rec)
+            las = laspy_read(pool["raw"])
+        else:
+            if not live:
+                return create()
+            parent = rng.choice(live)
+            las = laspy.LasData(copy.deepcopy(parent["las"].header))
+            route = f"LasData(copy.deepcopy({parent['name']}.header))"
+        label = f"{name} = {route}" + (f"   # v={v!r}, f={f}" + (f", n={n}" if "zeros" in route else "") if ("=v" in route or "=f" in route or "(f)" in route) else "")
+        # ---- state kept ACROSS calls: the same creating expression gives the same header as the first time it was evaluated in this process
+        stale = None
+        if parent is None and not route.startswith("laspy.read"):
+            a = lasio.header_assoc(las.header)
+            fresh = dict({k: x for k, x in a.items() if not k.startswith("creation_")}, vlrs=[lasio.vlr_tuple(x) for x in las.vlrs], points=len(las.points),
+                         record_scaling=[lasio.f64bits(x) for x in list(las.points.scales) + list(las.points.offsets)])
+            key = (route, v if "=v" in route else None, f if ("=f" in route or "(f)" in route) else None, n if "zeros" in route else None)
+            first = _FRESH.setdefault(key, fresh)
+            if first != fresh:
+                stale = ", ".join(f"{k}: {str(fresh[k])[:60]} (the first time: {str(first[k])[:60]})" for k in fresh if fresh[k] != first.get(k))
+        # ---- filled through the record, the integer dimensions, or the scaled ones
+        fill = rng.choice(["left as created", "points", "points", "X/Y/Z", "x/y/z"]) if not route.startswith("laspy.read") else "left as created"
+        if len(las.points):
+            n = len(las.points)      # made with records already (zeros): the dimensions are assigned at that length
+        try:
+            label = fill_(las, name, fill, n, label)
+        except Exception as ex:
+            # a refused assignment (coordinates that do not fit the scaling of a header that was read or copied): C11's business; the cloud is not used
+            log.append(f"# {label}; filling it through {fill} raised {type(ex).__name__}: {str(ex)[:60]} -- not used")
+            raise _FillRefused()
+        log.append(label)
+        if stale:
+            res["polluted"] = True
+            res["failures"].append(("independent clouds: the same creating expression gives another cloud than the first time in this process",
+                                    f"{label.split(';')[0]}: {stale}; in between, the headers of OTHER clouds made the same way were edited in place", len(log)))
+        res["routes"].append(route.split("(")[0] + ("()" if route.endswith("()") or route.endswith("LasHeader())") else "(..)"))
+        finish_(las, name, route, parent, label)
+
+    def fill_(las, name, fill, n, label):
+        if fill == "points" and n:
+            rec = lasio.rand_points(rng, las.header, n)
+            if rng.random() < 0.8:
+                small_coords(rec, n)
+            las.points = laspy.ScaleAwarePointRecord(rec.array, las.header.point_format, scales=las.header.scales, offsets=las.header.offsets)
+            label += f"; {name}.points = ScaleAwarePointRecord(<{n} records>, {name}.header.point_format, {name}.header.scales, {name}.header.offsets)"
+        elif fill == "X/Y/Z" and n:
+            vals = [[rng.randrange(-100000, 100000) for _ in range(n)] for _ in range(3)]
+            las.X, las.Y, las.Z = (np.array(a, dtype=np.int32) for a in vals)
+            las.intensity = [rng.randrange(65536) for _ in range(n)]
+            label += f"; {name}.X, {name}.Y, {name}.Z = {vals}; {name}.intensity = <{n} values>"
+        elif fill == "x/y/z" and n:
+            vals = [[rng.randrange(-100000, 100000) / 4.0 for _ in range(n)] for _ in range(3)]
+            las.x, las.y, las.z = (np.array(a) for a in vals)
+            label += f"; {name}.x, {name}.y, {name}.z = {vals}"
+        if rng.random() < 0.3:
+            las.update_header()
+            label += f"; {name}.update_header()"
+        return label
+
+    def finish_(las, name, route, parent, label):
+        o = {"name": name, "las": las, "route": route}
+        remember(o)
+        # ---- what the model is told: a cloud made from nothing that is live as it is (DCreate); one made on a deep copy of a live header as a
+        # copy of that cloud followed by one edit that sets everything in which it differs
+        if not names:
+            st = state_of(las)
+            mirror[name] = st
+            toks.extend([lasio.assoc_tok(st["assoc"]), lasio.vlrs_tok(st["vlrs"]), lasio.vlrs_tok(st["evlrs"]), sessions.fmt_tok(st["fmt"]), common.hexb(st["recs"])])
+            names.append(name)
+        elif parent is None:
+            st = state_of(las)
+            mirror[name] = st
+            toks.append("N" + "!".join([lasio.assoc_tok(st["assoc"]), lasio.vlrs_tok(st["vlrs"]), lasio.vlrs_tok(st["evlrs"]), sessions.fmt_tok(st["fmt"]), common.hexb(st["recs"])]))
+            names.append(name)
+        else:
+            toks.append(f"K{names.index(parent['name'])}")
+            names.append(name)
+            mirror[name] = dict(mirror[parent["name"]])
+            toks.extend(sync(name, las))
+        # ---- structural probe against EVERY live cloud
+        for p in live:
+            for pa, pb, obj in sessions.shared_mutables(p["las"], las):
+                res["probe"].append(f"{p['name']}{pa} is {name}{pb} ({type(obj).__name__})")
+                pert = sessions.perturbation_for(rng, pb, obj)
+                if pert is not None and len(forced) < 6:
+                    forced.append((o, pert))
+        live.append(o)
+        if check_others(o, label):
+            return
+
+    forced = []
+
+    def edits_of(o):
+        las, nm = o["las"], o["name"]
+        h = las.header
+        i = rng.randrange(3)
+        ax = "xyz"[i]
+        sv = rng.choice([0.001, 0.01, 0.5, 2.0, 0.25])
+        ov = rng.choice([0.0, 1.5, -2.0, 1000.0, 500.0, -20.0, 7.5])
+        k = rng.randrange(10000)
+        t = rng.choice(["u1", "u2", "i4", "f8", "2u2"])
+        r = rng.randrange(15)
+        c = []
+        if las.points.array.ndim:
+            c += [(f"{nm}.header.{ax}_offset = {ov!r}", lambda: setattr(h, f"{ax}_offset", ov)),
+                  (f"{nm}.header.x_offset, {nm}.header.y_offset, {nm}.header.z_offset = 500.0, -20.0, {ov!r}", lambda: (setattr(h, "x_offset", 500.0), setattr(h, "y_offset", -20.0), setattr(h, "z_offset", ov))),
+                  (f"{nm}.header.{ax}_scale = {sv!r}", lambda: setattr(h, f"{ax}_scale", sv)),
+                  (f"{nm}.header.offsets[{i}] = {ov!r}", lambda: h.offsets.__setitem__(i, ov)),
+                  (f"{nm}.header.scales[{i}] = {sv!r}", lambda: h.scales.__setitem__(i, sv)),
+                  (f"{nm}.header.offsets[:] = {ov!r}", lambda: h.offsets.__setitem__(slice(None), ov)),
+                  (f"{nm}.header.scales[:] = {sv!r}", lambda: h.scales.__setitem__(slice(None), sv)),
+                  (f"{nm}.header.offsets += 1.5", lambda: h.offsets.__iadd__(1.5)),
+                  (f"{nm}.header.scales *= 2", lambda: h.scales.__imul__(2)),
+                  (f"{nm}.header.offsets = np.array([{ov!r}, 0.0, {ov!r}])", lambda: setattr(h, "offsets", np.array([ov, 0.0, ov]))),
+                  (f"{nm}.header.scales = np.array([{sv!r}]*3)", lambda: setattr(h, "scales", np.array([sv] * 3))),
+                  (f"{nm}.change_scaling(scales=[{sv!r}]*3, offsets=[{ov!r}]*3)", lambda: las.change_scaling(scales=np.array([sv] * 3), offsets=np.array([ov] * 3))),
+                  (f"{nm}.change_scaling(offsets=[{ov!r}]*3)", lambda: las.change_scaling(offsets=np.array([ov] * 3)))]
+        c += [(f"{nm}.header.{ax}_max = 1e9; {nm}.header.{ax}_min = -1e9", lambda: (setattr(h, f"{ax}_max", 1e9), setattr(h, f"{ax}_min", -1e9))),
+              (f"{nm}.header.maxs[{i}] = 12.5; {nm}.header.mins[:] = -3.0", lambda: (h.maxs.__setitem__(i, 12.5), h.mins.__setitem__(slice(None), -3.0))),
+              (f"{nm}.header.maxs = np.array([1.0, 2.0, 3.0])", lambda: setattr(h, "maxs", np.array([1.0, 2.0, 3.0]))),
+              (f"{nm}.header.number_of_points_by_return[{r}] += 9", lambda: h.number_of_points_by_return.__setitem__(r, h.number_of_points_by_return[r] + 9)),
+              (f"{nm}.header.global_encoding.value ^= 1", lambda: setattr(h.global_encoding, "value", h.global_encoding.value ^ 1)),
+              (f"{nm}.header.system_identifier = 'edited'", lambda: setattr(h, "system_identifier", "edited")),
+              (f"{nm}.header.file_source_id = {k}", lambda: setattr(h, "file_source_id", k)),
+              (f"{nm}.vlrs.append(VLR)", lambda: las.vlrs.append(lasio.rand_vlr(rng, 40))),
+              (f"{nm}.header.extra_header_bytes = b'xy'", lambda: setattr(h, "extra_header_bytes", b"xy")),
+              (f"{nm}.add_extra_dim(ExtraBytesParams('h{k}', {t!r}))", lambda: las.add_extra_dim(laspy.ExtraBytesParams(f"h{k}", t))),
+              (f"{nm}.update_header()", lambda: las.update_header()),
+              (f"{nm}.write(BytesIO())", lambda: las.write(io.BytesIO()))]
+        if h.version.minor >= 4:
+            c += [(f"{nm}.evlrs = VLRList([VLR])", lambda: setattr(las, "evlrs", laspy.vlrs.vlrlist.VLRList([lasio.rand_vlr(rng, 30)])))]
+        if len(las.points) and las.points.array.ndim:
+            val = rng.randrange(32)
+            c += [(f"{nm}.classification = {val}  (all points)", lambda: setattr(las, "classification", np.full(len(las.points), val, dtype=np.uint8))),
+                  (f"{nm}.X = {nm}.X[::-1]", lambda: setattr(las, "X", np.array(las.X)[::-1].copy())),
+                  (f"{nm}.x = {nm}.x + 1.0", lambda: setattr(las, "x", np.array(las.x) + 1.0))]
+        return c
+
+    def run_edit(o, label, th):
+        try:
+            th()
+            log.append(label)
+        except Exception as ex:
+            log.append(label + f"   # raised {type(ex).__name__}: {str(ex)[:60]} -- {o['name']} is not used any more")
+            live.remove(o)
+            res["failed_edits"] = res.get("failed_edits", 0) + 1
+            check_others(o, label)
+            return
+        res["edits"] += 1
+        remember(o)
+        toks.extend(sync(o["name"], o["las"]))
+        check_others(o, label)
+
+    def judge_all(final=False):
+        for o in list(live):
+            probs = _judge(o["las"], o["exp"], final)
+            o["snap"] = _snap(o["las"])
+            o["assoc"] = lasio.header_assoc(o["las"].header)
+            for kind, why in probs:
+                res["failures"].append(("independent clouds: " + kind, f"{o['name']} ({o['route']}): {why}", len(log)))
+            if res["failures"] or check_others(o, f"{o['name']}.write(BytesIO())"):
+                return True
+        return False
+
+    create()
+    create()
+    nsteps = rng.randrange(2, 7 if not thorough else 10)
+    for step in range(nsteps):
+        if res["failures"] or not live:
+            break
+        res["steps"] += 1
+        if forced and rng.random() < 0.8:
+            c, (lab, th) = forced.pop(0)
+            if c not in live:
+                continue
+            run_edit(c, f"PROBE-DIRECTED through {c['name']}: " + lab, th)
+        elif len(live) < 2 or (rng.random() < 0.25 and len(live) < 5):
+            create()
+        else:
+            o = rng.choice(live)
+            label, th = rng.choice(edits_of(o))
+            run_edit(o, label, th)
+        if res["failures"] or judge_all():
+            break
+    if not res["failures"]:
+        judge_all(final=True)
+    res["live"] = len(live)
+    res["desc"] = {"clouds": len(names), "ops": log}
+    res["written"] = []
+    for o in live:
+        if o["exp"].get("pending") or _pending_rescale(o["las"]):
+            continue
+        b = io.BytesIO()
+        try:
+            o["las"].write(b)
+            res["written"].append((o["name"], b.getvalue()))
+        except Exception as ex:
+            res["written"].append((o["name"], None))
+        toks.append(f"W{names.index(o['name'])}")
+    res["cmd"] = ("dworld " + " ".join(toks)) if not res["failures"] else None
+    return res
+
+
+_INDEP = None
+
+
+def _in_fresh_process(fn, timeout=60):
+    """fn() evaluated in a forked child: whatever laspy keeps at module or class level is, for every session, as the generators that ran
+    before left it, and what a session does to it ends with the session (every reported list of operations is a complete reproducer: `one
+    process`). Returns None when the child could not be run (the caller then evaluates fn() in this process)."""
+    import pickle
+    import select
+    import signal
+    import warnings
+    try:
+        r, w = os.pipe()
+        with warnings.catch_warnings():
+            warnings.simplefilter("ignore")
+            pid = os.fork()
+    except Exception:
+        return None
+    if pid == 0:
+        code = 0
+        try:
+            os.close(r)
+            try:
+                out = fn()
+            except Exception:
+                import traceback
+                out = {"crash": traceback.format_exc()[-1500:]}
+            data = pickle.dumps(out)
+            with os.fdopen(w, "wb") as f:
+                f.write(data)
+        except BaseException:
+            code = 3
+        finally:
+            os._exit(code)
+    os.close(w)
+    chunks, ok = [], True
+    try:
+        while True:
+            ready, _, _ = select.select([r], [], [], timeout)
+            if not ready:
+                ok = False
+                os.kill(pid, signal.SIGKILL)
+                break
+            b = os.read(r, 1 << 20)
+            if not b:
+                break
+            chunks.append(b)
+    finally:
+        os.close(r)
+        try:
+            _, status = os.waitpid(pid, 0)
+            ok = ok and status == 0
+        except Exception:
+            ok = False
+    if not ok:
+        return None
+    try:
+        return pickle.loads(b"".join(chunks))
+    except Exception:
+        return None
+
+
+def independents(ctx):
+    global _INDEP
+    if _INDEP is None:
+        import random as _random
+        import laspy
+        import time as _time
+        t0 = _time.time()
+        lasio.header_assoc(laspy.LasHeader())      # everything imported before the children are forked
+        _INDEP = []
+        forked = 0
+        for i in range(ctx.n(160, 3000)):
+            def one():
+                return independent_session(_random.Random(f"C01 independent clouds {ctx.seed} {i}"), ctx.thorough())      # own stream: the older generators keep theirs
+            res = _in_fresh_process(one) if forked == i else None
+            if res is None:
+                res = one()
+                res["desc"]["note"] = "evaluated in the process of the check, after the sessions before it"
+            else:
+                forked += 1
+            if "crash" in res:
+                raise RuntimeError("independent session crashed: " + res["crash"])
+            _INDEP.append(res)
+        ctx.count("independent:sessions-in-a-process-of-their-own", forked)
+        ctx.extra["independent_sessions_seconds"] = round(_time.time() - t0, 1)
+    return _INDEP
